@@ -176,6 +176,9 @@ func c31New(f *core.FuncInfo) *c31Ctx {
 				return true
 			}
 			w, _ := f.Info().ObjectOf(id).(*types.Var)
+			if w != nil && w == v {
+				safe = false // `x = x + 1` on a parameter: not a definition that can be substituted
+			}
 			if w == nil || count[w] <= 1 {
 				return true
 			}
@@ -439,6 +442,27 @@ func (x *c31Ctx) dotIndex(e ast.Expr) string {
 // name is the AtomNamer: parameters and loop variables by role, len(dots), coordinates of a dot as
 // X[index] / Y[index], Mul/Div calls and products/quotients structurally.
 func (x *c31Ctx) name(e ast.Expr) string {
+	// a stable single-definition integer local whose definition is not one atom (`last := len(dots) - 1`)
+	// stands for the linear form of its definition: the placeholder is expanded by c31Expand, both in the
+	// forms built here and in the comparisons the view normalises with this namer
+	if id, ok := ast.Unparen(e).(*ast.Ident); ok {
+		if v := varOf(x.f, id); v != nil && x.roles[v] == "" {
+			if _, has := x.defs[v]; has && (x.vw == nil || !x.vw.hasState(x.fr, id)) {
+				if b, isB := v.Type().Underlying().(*types.Basic); isB && b.Info()&types.IsInteger != 0 {
+					l := x.lin(id)
+					one := false
+					for _, cf := range l.Coef {
+						one = len(l.Coef) == 1 && l.C.Sign() == 0 && cf.IsInt64() && cf.Int64() == 1
+					}
+					if !one {
+						s := l.String()
+						c31Lins[s] = l
+						return c31Held + s
+					}
+				}
+			}
+		}
+	}
 	e = ast.Unparen(x.subst(e))
 	switch n := e.(type) {
 	case *ast.Ident:
@@ -645,6 +669,7 @@ func c31NewFuncClause(c *core.Ctx, maxPlus1 string) {
 		}
 		env := c13BareEnv(vw, fr)
 		env.custom = x.name
+		env.expand = c31Expand // a local standing for a linear form (`last := len(dots) - 1`) inside a condition
 		// the validation loops: iterations over the dot list, written as a range or as a counted loop
 		env.loops = c13Loops(g, func(coll ast.Expr) string {
 			if x.dots(coll) {
@@ -832,6 +857,7 @@ func c31GetClause(c *core.Ctx, decStr string) {
 		}
 		env := c13BareEnv(vw, fr)
 		env.custom = x.name
+		env.expand = c31Expand // a local standing for a linear form (`last := len(dots) - 1`) inside a condition
 		// a forward scan of the dot indexes: a range over the dots, or a counted loop. What matters below is
 		// the set of indexes it visits in ascending order, not how the loop is spelled.
 		var stmts []ast.Stmt
